@@ -691,11 +691,43 @@ impl<'a> VisitMut for BreakValuePass<'a> {
 }
 
 // ---------------------------------------------------------------------------------------------
+// R25: `let [mut] NAME = E;` -> `let [mut] NAME: TY = E;`
+struct LetTypePass<'a> { rules: &'a mut Rules, types: BTreeMap<String, String> }
+impl<'a> VisitMut for LetTypePass<'a> {
+    fn visit_local_mut(&mut self, l: &mut Local) {
+        visit_mut::visit_local_mut(self, l);
+        if let Pat::Ident(pi) = &l.pat {
+            if let Some(ty) = self.types.get(&pi.ident.to_string()) {
+                if let Ok(t) = syn::parse_str::<Type>(ty) {
+                    self.rules.hit("R25.let_type");
+                    let inner = l.pat.clone();
+                    l.pat = Pat::Type(PatType { attrs: vec![], pat: Box::new(inner), colon_token: Default::default(), ty: Box::new(t) });
+                }
+            }
+        }
+    }
+}
+
+// ---------------------------------------------------------------------------------------------
 // R6: for -> loop { match it.next() { Some(P) => B, None => break } }
 
 struct ForPass<'a> { rules: &'a mut Rules, which: ForSel, into_iter: Vec<u64> }
 enum ForSel { None, All, Some(Vec<u64>) }
 impl<'a> VisitMut for ForPass<'a> {
+    // a `while`/`loop` statement directly followed by the block a `for` became: terminate the loop statement with `;`
+    // (Verus reads `while c invariant .. { } { }` as a loop body followed by a stray block)
+    fn visit_block_mut(&mut self, b: &mut Block) {
+        visit_mut::visit_block_mut(self, b);
+        for i in 0..b.stmts.len().saturating_sub(1) {
+            let next_is_block = matches!(&b.stmts[i + 1], Stmt::Expr(Expr::Block(_), _));
+            if !next_is_block { continue; }
+            if let Stmt::Expr(ex, semi) = &mut b.stmts[i] {
+                if semi.is_none() && matches!(ex, Expr::While(_) | Expr::Loop(_)) {
+                    *semi = Some(Default::default());
+                }
+            }
+        }
+    }
     fn visit_expr_mut(&mut self, e: &mut Expr) {
         visit_mut::visit_expr_mut(self, e);
         if let Expr::ForLoop(f) = e {
@@ -1283,6 +1315,12 @@ fn process_fn(
         let mut lp = LogPass { rules, drop_macros: job.drop_macros.clone(), drop_nested: spec.get("drop_nested").and_then(|v| v.as_array()).map(|a| a.iter().filter_map(|x| x.as_str().map(|s| s.to_string())).collect()).unwrap_or_default(), drop_stmts: drop_stmts.clone(), dropped: vec![] };
         lp.visit_block_mut(block);
         for d in &drop_stmts { if !lp.dropped.contains(d) { errors.push(format!("{}: lost anchor: statement to drop not found: {}", path, d)); } }
+    }
+    // R25: type ascription on an un-annotated local (`let [mut] NAME = E;` -> `let [mut] NAME: TY = E;`); soft: a local
+    // that is gone or already annotated is left alone
+    if let Some(Value::Object(m)) = spec.get("let_types") {
+        let mut lt = LetTypePass { rules, types: m.iter().filter_map(|(k, v)| v.as_str().map(|s| (k.clone(), s.to_string()))).collect() };
+        lt.visit_block_mut(block);
     }
     // R4
     LetChainPass { rules }.visit_block_mut(block);
